@@ -27,6 +27,17 @@ void w_can_steps(uint8_t* pdu, uint64_t id, uint8_t* payload, uint64_t len, uint
     Avtp_Can_Finalize(p, (uint16_t)len);
 }
 
+/* a talker that writes the payload in place (through the payload accessor) and then finalises */
+void w_can_steps_inplace(uint8_t* pdu, uint64_t id, uint8_t* payload, uint64_t len, uint64_t variant)
+{
+    Avtp_Can_t* p = (Avtp_Can_t*)pdu;
+    memcpy(Avtp_Can_GetPayload(p), payload, (size_t)len);
+    Avtp_Can_SetFdf(p, (uint8_t)variant);
+    Avtp_Can_SetCanIdentifier(p, (uint32_t)id);
+    Avtp_Can_SetEff(p, (uint32_t)id > 0x7ff ? 1 : 0);
+    Avtp_Can_Finalize(p, (uint16_t)len);
+}
+
 uint64_t w_can_paylen(uint8_t* pdu) { return Avtp_Can_GetCanPayloadLength((Avtp_Can_t*)pdu); }
 uint64_t w_can_payoff(uint8_t* pdu) { return (uint64_t)(Avtp_Can_GetPayload((Avtp_Can_t*)pdu) - pdu); }
 
@@ -169,7 +180,10 @@ void w_vss_set_data(uint8_t* pdu, uint64_t shape, uint8_t* canon, uint64_t nbyte
  * aligned, owned by the caller. out_canon receives the canonical bytes of what was decoded (scalars: es
  * bytes; variable: floor(data_length/es) elements read back from dest). meta: [0..1] data_length BE,
  * [2] data pointer changed, [3] canary around the result object damaged */
-void w_vss_get_data(uint8_t* pdu, uint64_t shape, uint8_t* dest, uint8_t* out_canon, uint8_t* meta)
+void w_vss_get_data2(uint8_t* pdu, uint64_t shape, uint8_t* dest, uint8_t* out_canon, uint8_t* meta, uint64_t prefill);
+void w_vss_get_data(uint8_t* pdu, uint64_t shape, uint8_t* dest, uint8_t* out_canon, uint8_t* meta) { w_vss_get_data2(pdu, shape, dest, out_canon, meta, 0xA5A5); }
+/* prefill: what the result object's data_length holds before the call (a reused or zeroed object) */
+void w_vss_get_data2(uint8_t* pdu, uint64_t shape, uint8_t* dest, uint8_t* out_canon, uint8_t* meta, uint64_t prefill)
 {
     struct { uint64_t c1; VssData_t val; uint64_t c2; VssDataUint64Array_t arr; uint64_t c3; } s;
     memset(&s, 0xA5, sizeof s);
@@ -196,12 +210,13 @@ void w_vss_get_data(uint8_t* pdu, uint64_t shape, uint8_t* dest, uint8_t* out_ca
         if (code == 11) code = 0;
         unsigned es = elem_size(code);
         s.arr.data = (uint64_t*)(void*)dest;
+        s.arr.data_length = (uint16_t)prefill;
         s.val.data_uint64_array = &s.arr;
         Avtp_Vss_GetVssData((Avtp_Vss_t*)pdu, &s.val);
         meta[0] = (uint8_t)(s.arr.data_length >> 8);
         meta[1] = (uint8_t)s.arr.data_length;
         meta[2] = (s.arr.data != (uint64_t*)(void*)dest) | (s.val.data_uint64_array != &s.arr);
-        if (dest && s.arr.data_length != 0xA5A5) from_typed(code, dest, out_canon, s.arr.data_length / es);
+        if (dest) from_typed(code, dest, out_canon, s.arr.data_length / es);
     }
     meta[3] = (s.c1 != 0xA5A5A5A5A5A5A5A5ull) | (s.c2 != 0xA5A5A5A5A5A5A5A5ull) | (s.c3 != 0xA5A5A5A5A5A5A5A5ull);
 }
@@ -209,7 +224,10 @@ void w_vss_get_data(uint8_t* pdu, uint64_t shape, uint8_t* dest, uint8_t* out_ca
 /* ---------------- VSS string arrays ---------------- */
 #define SA_MAX 320
 /* lens_be: n 16-bit BE lengths; bytes: the strings' bytes back to back; packed: destination; returns data_length */
-uint64_t w_sa_pack(uint8_t* lens_be, uint8_t* bytes, uint64_t n, uint8_t* packed)
+uint64_t w_sa_pack2(uint8_t* lens_be, uint8_t* bytes, uint64_t n, uint8_t* packed, uint64_t null_for_empty);
+uint64_t w_sa_pack(uint8_t* lens_be, uint8_t* bytes, uint64_t n, uint8_t* packed) { return w_sa_pack2(lens_be, bytes, n, packed, 0); }
+/* null_for_empty: empty strings are given as {data_length 0, data NULL}, as a caller without text would */
+uint64_t w_sa_pack2(uint8_t* lens_be, uint8_t* bytes, uint64_t n, uint8_t* packed, uint64_t null_for_empty)
 {
     VssDataString_t strs[SA_MAX];
     VssDataString_t* ptrs[SA_MAX];
@@ -217,7 +235,7 @@ uint64_t w_sa_pack(uint8_t* lens_be, uint8_t* bytes, uint64_t n, uint8_t* packed
     uint64_t off = 0;
     for (uint64_t i = 0; i < n && i < SA_MAX; i++) {
         strs[i].data_length = (uint16_t)be_load(lens_be + 2 * i, 2);
-        strs[i].data = (char*)bytes + off;
+        strs[i].data = (null_for_empty && strs[i].data_length == 0) ? (char*)0 : (char*)bytes + off;
         off += strs[i].data_length;
         ptrs[i] = &strs[i];
     }
